@@ -76,22 +76,27 @@ func doDisplaced(rng *vhlib.Rng, thorough bool, runSortOrdered func(string, []in
 		for _, m := range mvs {
 			in := moved(asc, m.src, m.dst)
 			name := fmt.Sprintf("one-displaced(len %d)", L)
-			// every move through Sort (the Ordered copy) at the two shortest lengths, a rotating third elsewhere
-			if li < 2 || k%3 == 0 {
+			// every move through Sort (the Ordered copy) at the two shortest lengths, a rotating share elsewhere
+			// (quick tier: the longest length gets every sixth move)
+			stride := 3
+			if L >= 300 && !thorough {
+				stride = 6
+			}
+			if li < 2 || k%stride == 0 {
 				runSortOrdered(name, in)
 			}
-			if k%3 == 1 {
+			if k%(2*stride) == 1 {
 				runSortFunc(name, in, false)
 			}
-			if k%6 == 2 {
+			if k%(2*stride) == 2 {
 				runSortFunc(name, in, true)
 			}
-			if k%6 == 5 { // descending mirror
+			if k%(2*stride) == 5 { // descending mirror
 				rev := make([]int64, L)
 				for i, v := range in {
 					rev[L-1-i] = v
 				}
-				if k%12 == 5 {
+				if k%(4*stride) == 5 {
 					runSortOrdered(name+" descending", rev)
 				} else {
 					runSortFunc(name+" descending", rev, false)
@@ -222,11 +227,17 @@ func smallSorts(w *vhlib.Writer) []smallSort {
 
 func doSmallPermutations(rng *vhlib.Rng, w *vhlib.Writer) {
 	sorts := smallSorts(w)
-	k := 0
+	rest := len(sorts) - 4
+	pi := 0 // permutation counter (drives the rotation of containers / entry points)
 	for n := 0; n <= 6; n++ {
 		permutations(n, func(p []int) {
-			// distinct keys, and a variant with ties (key = p/2); the tag makes the elements distinct for the sets
+			pi++
+			// distinct keys, and (for a quarter of the permutations of size >= 3) a variant with ties (key = p/2);
+			// the tag makes the elements distinct for the sets
 			for variant := 0; variant < 2; variant++ {
+				if variant == 1 && (n < 3 || pi%4 != 0) {
+					continue
+				}
 				vals := make([]int64, n)
 				for i, x := range p {
 					key := int64(x)
@@ -240,24 +251,20 @@ func doSmallPermutations(rng *vhlib.Rng, w *vhlib.Writer) {
 					pn, _ := vhlib.Recover(func() { out = s.f(append([]int64(nil), vals...)) })
 					emitSorted(fmt.Sprintf("%s/perm(%d)", s.name, n), vals, out, pn, false, true, nil)
 				}
-				if variant == 1 && (n < 3 || k%4 != 0) {
-					k++
-					continue
-				}
-				if n <= 4 {
-					for _, s := range sorts { // every permutation through every entry point
+				switch {
+				case n <= 4: // every permutation through every entry point
+					for _, s := range sorts {
 						run(s)
 					}
-				} else if n == 5 {
-					for i := 0; i < 4; i++ { // every permutation through the four GetSortedValues containers
+				case n == 5: // every permutation through the four GetSortedValues containers, the others rotating
+					for i := 0; i < 4; i++ {
 						run(sorts[i])
 					}
-					run(sorts[4+k%(len(sorts)-4)])
-				} else {
-					run(sorts[k%4]) // size 6: every permutation, containers and entry points rotating
-					run(sorts[4+k%(len(sorts)-4)])
+					run(sorts[4+pi%rest])
+				default: // size 6: every permutation, containers and entry points rotating
+					run(sorts[pi%4])
+					run(sorts[4+(pi/4)%rest])
 				}
-				k++
 			}
 		})
 	}
